@@ -18,7 +18,10 @@ RULE = ("histories of 1..12 (quick) / 1..30 GET / MEM / UPDATE / GET_AND_UPDATE 
         "applied to the fake chain first. Oracle: layered dict; every logged observation equals the model's; the lazy "
         "diff applied as a mapping to the on-chain content (alloc: from empty under the new id) equals the model's "
         "final dict; each entry's key_hash == b58('expr', blake2b(legacy PACK of the key)). Non-trivial: a key is "
-        "removed and re-inserted, or a key present only on chain is updated. Distinct = distinct history.")
+        "removed and re-inserted, or a key present only on chain is updated. Second tier: two big maps (each on chain or a literal, different "
+        "contents over one key universe) in one storage, operations addressed to either, reads through and continuation with copies obtained "
+        "by DUP of the enclosing pair / option / the map itself; both lazy diffs are applied and compared; non-trivial there: the same "
+        "key asked from two on-chain maps in one execution, or a copy taken after an on-chain key was removed. Distinct = distinct history.")
 
 VT = rv.T("nat")
 KEY_TYPES = [rv.T("nat"), rv.T("string"), rv.T("pair", rv.T("nat"), rv.T("string")), rv.T("or", rv.T("nat"), rv.T("bool")),
@@ -167,30 +170,7 @@ def oracle(case):
             raise Violation("unexpected diff action %s" % action, case, "diff-action")
         if int(d["id"]) != ptr:
             raise Violation("storage points to big_map %d but the diff is for %s" % (ptr, d["id"]), case, "diff-ptr")
-        seen = {}
-        for u in d["diff"]["updates"]:
-            try:
-                k = rv.from_micheline(kt, u["key"])
-            except rv.Malformed as e:
-                raise Violation("diff key %s malformed: %s" % (u["key"], e), case, "diff-key-malformed")
-            if k not in keys:
-                raise Violation("diff mentions a key never used: %s" % u["key"], case, "diff-alien-key")
-            i = keys.index(k)
-            want_h = key_hash(kt, k)
-            if u.get("key_hash") != want_h:
-                raise Violation("key_hash of %s is %s, Tezos script-expr hash of the packed key is %s" % (
-                    u["key"], u.get("key_hash"), want_h), case, "key-hash")
-            val = ("v", rv.from_micheline(VT, u["value"])) if u.get("value") is not None else None
-            if i in seen and seen[i] != val:
-                raise Violation("diff has contradicting entries for key %s: %s then %s" % (u["key"], seen[i], val), case,
-                                "diff-contradiction")
-            seen[i] = val
-        final = {i: V(n) for i, n in base.items()}
-        for i, val in seen.items():
-            if val is None:
-                final.pop(i, None)
-            else:
-                final[i] = val[1]
+        final = _apply_updates(case, d, kt, keys, VT, V, base)
         if final != {i: V(n) for i, n in m.items()}:
             raise Violation("lazy diff applied to the on-chain content gives %s, model final dict %s (on-chain %s, "
                             "action %s, ops %s, updates %s)" % (final, m, base, action, ops, d["diff"]["updates"]), case,
@@ -201,13 +181,227 @@ def oracle(case):
     return nontrivial
 
 
+def _apply_updates(case, d, kt, keys, VT, V, base):
+    """the lazy diff entry `d` applied as a mapping to `base` (key index -> generated integer); key hashes are checked on the way"""
+    seen = {}
+    for u in d["diff"]["updates"]:
+        try:
+            k = rv.from_micheline(kt, u["key"])
+        except rv.Malformed as e:
+            raise Violation("diff key %s malformed: %s" % (u["key"], e), case, "diff-key-malformed")
+        if k not in keys:
+            raise Violation("diff mentions a key never used: %s" % u["key"], case, "diff-alien-key")
+        i = keys.index(k)
+        want_h = key_hash(kt, k)
+        if u.get("key_hash") != want_h:
+            raise Violation("key_hash of %s is %s, Tezos script-expr hash of the packed key is %s" % (
+                u["key"], u.get("key_hash"), want_h), case, "key-hash")
+        val = ("v", rv.from_micheline(VT, u["value"])) if u.get("value") is not None else None
+        if i in seen and seen[i] != val:
+            raise Violation("diff has contradicting entries for key %s: %s then %s" % (u["key"], seen[i], val), case,
+                            "diff-contradiction")
+        seen[i] = val
+    final = {i: V(n) for i, n in base.items()}
+    for i, val in seen.items():
+        if val is None:
+            final.pop(i, None)
+        else:
+            final[i] = val[1]
+    return final
+
+
 def _obs_kind(ops, j):
     obs = [o for o in ops if o["op"] != "UPDATE"]
     return obs[j]["op"] if j < len(obs) else "count"
 
 
+
+# ---------------------------------------------------------------------------------------------------------------------------
+# two big maps in one storage, copies of the structure that holds them
+
+P = lambda name, *a: {"prim": name, "args": list(a)} if a else {"prim": name}  # noqa: E731
+COPY_OPS = ("COPYGET", "COPYMEM", "USECOPY", "DUPSELF", "OPTCOPY")
+
+
+def build_code2(kt, ops, keys, vname):
+    VT = VTS[vname]
+    optv = rv.T("option", VT)
+    log_t = rv.T("or", optv, rv.T("bool"))
+    bm_t = rv.T("big_map", kt, VT)
+    tail3 = [P("DIG", {"int": "3"}), P("SWAP"), P("CONS"), P("DUG", {"int": "2"})]          # obs : M : other : log
+    tail2 = [P("DIG", {"int": "2"}), P("SWAP"), P("CONS"), P("SWAP")]                        # obs : X : log
+    code = [P("CDR"), P("UNPAIR"), P("DIP", [P("UNPAIR")])]                                   # A : B : log
+    for op in ops:
+        k = interp.push(kt, rv.to_micheline(kt, keys[op.get("key", 0)]))
+        val = op.get("val")
+        ov = interp.push(optv, {"prim": "None"} if val is None else {"prim": "Some", "args": [rv.to_micheline(VT, val_of(vname, val))]})
+        o = op["op"]
+        if o == "UPDATE":
+            c = [ov, k, P("UPDATE")]
+        elif o == "GET":
+            c = [P("DUP"), k, P("GET"), P("LEFT", rv.T("bool"))] + tail3
+        elif o == "MEM":
+            c = [P("DUP"), k, P("MEM"), P("RIGHT", optv)] + tail3
+        elif o == "GET_AND_UPDATE":
+            c = [ov, k, P("GET_AND_UPDATE"), P("LEFT", rv.T("bool"))] + tail3
+        elif o == "COPYGET":    # read through a copy of the pair that holds both maps
+            c = [P("PAIR"), P("DUP"), P("CAR"), k, P("GET"), P("LEFT", rv.T("bool"))] + tail2 + [P("UNPAIR")]
+        elif o == "COPYMEM":
+            c = [P("PAIR"), P("DUP"), P("CAR"), k, P("MEM"), P("RIGHT", optv)] + tail2 + [P("UNPAIR")]
+        elif o == "USECOPY":    # go on with the copy taken out of a duplicated pair
+            c = [P("PAIR"), P("DUP"), P("CAR"), P("SWAP"), P("CDR"), P("SWAP")]
+        elif o == "DUPSELF":
+            c = [P("DUP"), P("DIP", [P("DROP")])]
+        elif o == "OPTCOPY":    # go on with the copy taken out of a duplicated option
+            c = [P("SOME"), P("DUP"), P("IF_NONE", [interp.push(rv.T("string"), {"string": "none"}), P("FAILWITH")], []), P("SWAP"), P("DROP")]
+        else:
+            raise ValueError(o)
+        code += c if op["map"] == 0 else [P("SWAP")] + c + [P("SWAP")]
+    code += [P("DIP", [P("PAIR")]), P("PAIR"), P("NIL", rv.T("operation")), P("PAIR")]
+    storage_t = rv.T("pair", bm_t, rv.T("pair", bm_t, rv.T("list", log_t)))
+    return [P("parameter", rv.T("unit")), P("storage", storage_t), P("code", code)], log_t
+
+
+def oracle2(case):
+    from pytezos.michelson.repl import Interpreter
+    kt, vname = case["kt"], case["vt"]
+    VT = VTS[vname]
+    V = lambda n: val_of(vname, n)  # noqa: E731
+    vm = lambda n: rv.to_micheline(VT, val_of(vname, n))  # noqa: E731
+    keys = [rv.from_micheline(kt, k) for k in case["keys"]]
+    node = fake_node.FakeNode()
+    chain, ids, model = [{}, {}], [None, None], [{}, {}]
+    for j, mp in enumerate(case["maps"]):
+        content = {int(i): v for i, v in mp["content"].items()}
+        model[j] = dict(content)
+        if mp["on_chain"]:
+            ids[j] = 42 + j
+            chain[j] = dict(content)
+            node.big_maps[ids[j]] = {key_hash(kt, keys[i]): vm(v) for i, v in content.items()}
+    nontrivial = False
+    for call_no, ops in enumerate(case["calls"]):
+        script, log_t = build_code2(kt, ops, keys, vname)
+        st_parts = []
+        for j in (0, 1):
+            if ids[j] is not None:
+                st_parts.append({"int": str(ids[j])})
+            else:
+                ks = rv.sort_values(kt, [keys[i] for i in model[j]])
+                st_parts.append([{"prim": "Elt", "args": [rv.to_micheline(kt, k), vm(model[j][keys.index(k)])]} for k in ks])
+        storage = {"prim": "Pair", "args": [st_parts[0], {"prim": "Pair", "args": [st_parts[1], []]}]}
+        expected, m = [], [dict(model[0]), dict(model[1])]
+        removed_on_chain = [set(), set()]
+        asked = [set(), set()]
+        for op in ops:
+            j, i, o = op["map"], op.get("key", 0), op["op"]
+            if o in ("GET", "COPYGET", "GET_AND_UPDATE"):
+                expected.append(("Left", ("Some", V(m[j][i])) if i in m[j] else None))
+            elif o in ("MEM", "COPYMEM"):
+                expected.append(("Right", i in m[j]))
+            if o in ("GET", "MEM", "COPYGET", "COPYMEM", "GET_AND_UPDATE", "UPDATE"):
+                if ids[0] is not None and ids[1] is not None and i in asked[1 - j]:
+                    nontrivial = True     # the same key asked from two on-chain-backed maps in one execution
+                asked[j].add(i)
+            if o in ("UPDATE", "GET_AND_UPDATE"):
+                if op.get("val") is None:
+                    if i in chain[j] and i in m[j]:
+                        removed_on_chain[j].add(i)
+                    m[j].pop(i, None)
+                else:
+                    m[j][i] = op["val"]
+            if o in COPY_OPS and removed_on_chain[j]:
+                nontrivial = True         # a copy taken after a key that exists on chain was removed
+        try:
+            res = Interpreter.run_code(parameter={"prim": "Unit"}, storage=storage, script=script,
+                                       shell=fake_node.shell(node), output_mode="optimized")
+        except Exception as e:
+            raise Violation("run_code raised %r (call %d, ops %s)" % (e, call_no, ops), case, "two:run_code-raise")
+        operations, new_storage, lazy_diff, stdout, err = res
+        if err is not None:
+            raise Violation("contract failed: %r (call %d, key type %s, ops %s)" % (err.args, call_no, kt, ops), case,
+                            "two:contract-failed:" + str(err.args[0]))
+        try:
+            a = new_storage["args"]
+            if len(a) == 2:
+                a = [a[0]] + a[1]["args"]
+            ptrs = [int(a[0]["int"]), int(a[1]["int"])]
+            log = list(reversed(rv.from_micheline(rv.T("list", log_t), a[2])))
+        except Exception as e:
+            raise Violation("unexpected storage shape %s (%r)" % (new_storage, e), case, "two:storage-shape")
+        if log != expected:
+            n = next((n for n, (x, y) in enumerate(zip(log, expected)) if x != y), min(len(log), len(expected)))
+            obs = [o for o in ops if o["op"] in ("GET", "MEM", "COPYGET", "COPYMEM", "GET_AND_UPDATE")]
+            raise Violation("observation #%d (%s) differs: got %s, layered-dict model %s; call %d ops %s; on-chain contents %s" % (
+                n, obs[n] if n < len(obs) else None, log[n] if n < len(log) else None, expected[n] if n < len(expected) else None,
+                call_no, ops, chain), case, "two:observation:" + (obs[n]["op"] if n < len(obs) else "count"))
+        if ptrs[0] == ptrs[1]:
+            raise Violation("two different big maps are stored under the same identifier %d" % ptrs[0], case, "two:same-id")
+        diffs = [d for d in lazy_diff if d.get("kind") == "big_map"]
+        for j in (0, 1):
+            mine = [d for d in diffs if int(d["id"]) == ptrs[j]]
+            if len(mine) != 1:
+                raise Violation("expected one lazy diff for big_map %d (slot %d), got %s" % (ptrs[j], j, lazy_diff), case, "two:diff-count")
+            d = mine[0]
+            action = d["diff"]["action"]
+            if action == "alloc":
+                base = {}
+            elif action == "update":
+                if ids[j] is None or ptrs[j] != ids[j]:
+                    raise Violation("diff updates big_map %s but slot %d held %s" % (d["id"], j, ids[j]), case, "two:diff-id")
+                base = dict(chain[j])
+            else:
+                raise Violation("unexpected diff action %s" % action, case, "two:diff-action")
+            final = _apply_updates(case, d, kt, keys, VT, V, base)
+            if final != {i: V(n) for i, n in m[j].items()}:
+                raise Violation("slot %d: lazy diff applied to the on-chain content gives %s, model final dict %s (on-chain %s, action %s, "
+                                "ops %s, updates %s)" % (j, final, m[j], base, action, ops, d["diff"]["updates"]), case,
+                                "two:diff-final:" + action)
+        if len(diffs) != 2:
+            raise Violation("lazy diff mentions big maps other than the two stored ones: %s" % lazy_diff, case, "two:diff-extra")
+        for j in (0, 1):
+            chain[j], model[j], ids[j] = dict(m[j]), dict(m[j]), ptrs[j]
+            node.big_maps[ptrs[j]] = {key_hash(kt, keys[i]): vm(v) for i, v in chain[j].items()}
+    return nontrivial
+
+
+@st.composite
+def cases2(draw, max_ops):
+    kt = draw(st.sampled_from(KEY_TYPES))
+    base = draw(gt.values(kt))
+    ks = [base]
+    for _ in range(draw(st.integers(1, 3))):
+        ks.append(draw(gt.near(kt, draw(st.sampled_from(ks)))))
+    keys = rv.sort_values(kt, gt._consistent(kt, ks))
+    n = len(keys)
+    maps = []
+    for j in (0, 1):
+        maps.append({"on_chain": draw(st.integers(0, 3)) != 0,
+                     "content": {str(i): draw(st.integers(50 * j, 50 * j + 49)) for i in range(n) if draw(st.integers(0, 2)) != 0}})
+
+    def ops():
+        out = []
+        for _ in range(draw(st.integers(2, max_ops))):
+            kind = draw(st.sampled_from(["UPDATE", "UPDATE", "GET", "GET", "MEM", "GET_AND_UPDATE", "COPYGET", "COPYGET", "COPYMEM",
+                                         "USECOPY", "DUPSELF", "OPTCOPY"]))
+            op = {"op": kind, "map": draw(st.integers(0, 1))}
+            if kind not in ("USECOPY", "DUPSELF", "OPTCOPY"):
+                op["key"] = draw(st.integers(0, n - 1))
+            if kind in ("UPDATE", "GET_AND_UPDATE"):
+                op["val"] = draw(st.sampled_from([None, None]) | st.integers(100, 199))
+            out.append(op)
+        return out
+    return {"mode": "two", "kt": kt, "keys": [rv.to_micheline(kt, k) for k in keys], "maps": maps,
+            "calls": [ops() for _ in range(draw(st.sampled_from([1, 1, 2])))], "vt": draw(st.sampled_from(["nat", "nat", "string", "option"]))}
+
+
+def _prop2(case, stats):
+    nt = oracle2(case)
+    stats.case(case, nt, "two:%s:%s" % (case["kt"]["prim"], "".join("c" if mp["on_chain"] else "l" for mp in case["maps"])),
+               sample={"key_type": case["kt"], "maps": case["maps"], "calls": case["calls"]})
+
+
 def replay(case):
-    oracle(case)
+    (oracle2 if case.get("mode") == "two" else oracle)(case)
 
 
 @st.composite
@@ -246,3 +440,4 @@ def _prop(case, stats):
 
 def run(h):
     h.run_given(lambda: cases(12 if h.quick else 30), _prop, h.n(120, 3000), shards=8 if h.quick else 16)
+    h.run_given(lambda: cases2(10 if h.quick else 24), _prop2, h.n(100, 3000), shards=8 if h.quick else 16, name="two-maps")
